@@ -39,17 +39,29 @@ static int g_saved_out = -1, g_saved_err = -1, g_cap_out = -1, g_cap_err = -1;
 
 std::string scratch_dir() { return g_scratch; }
 
+static std::string g_scratch_real;   // the directory itself; g_scratch is the fixed-length name the simulated process sees
+
 static void rm_scratch_at_exit() {
   if (g_scratch.empty()) return;
   clean_scratch();
-  rmdir(g_scratch.c_str());
+  if (g_scratch_real != g_scratch) unlink(g_scratch.substr(0, g_scratch.size() - 1).c_str());
+  rmdir(g_scratch_real.c_str());
 }
 
+// The simulated process reports paths in messages and files (a .sol names the intermediate solution files, the option echo
+// names the graph file): their *length* must not depend on where the scratch directory lives or on the number of digits of
+// the pid, or sizes of writes - and with them fingerprints - differ from process to process.  The directory is therefore
+// reached through a symbolic link with a name of fixed length.
 static void init_scratch() {
   const char* base = ::getenv("VERIF_SCRATCH");
   std::string b = base && *base ? base : "/dev/shm";
-  g_scratch = b + "/verif." + std::to_string((long)getpid()) + "/";
-  mkdir(g_scratch.c_str(), 0700);
+  g_scratch_real = b + "/verif." + std::to_string((long)getpid()) + "/";
+  mkdir(g_scratch_real.c_str(), 0700);
+  char link[64];
+  snprintf(link, sizeof link, "/dev/shm/vs.%07ld", (long)getpid() % 10000000L);
+  unlink(link);
+  if (symlink(g_scratch_real.substr(0, g_scratch_real.size() - 1).c_str(), link) == 0) g_scratch = std::string(link) + "/";
+  else g_scratch = g_scratch_real;
   atexit(rm_scratch_at_exit);
 }
 
